@@ -29,7 +29,7 @@ RULE = (
     "distinct by construction; random ones by SHA-1."
 )
 BUDGET = {
-    "quick": {"examples": 400, "shards": 4, "enum_shards": 4},
+    "quick": {"examples": 800, "shards": 4, "enum_shards": 4},
     "thorough": {"fuzz_runs": 3000, "examples": 6000, "shards": 16, "enum_shards": 16},
 }
 EXHAUSTIVE = {
